@@ -418,7 +418,7 @@ def validate(evidence, fatal=True):
         log("note: python3-vt not found, evidence not schema-validated")
 
 
-def cross_engine_guard(families):
+def cross_engine_guard(families, notes):
     """Second, independent enumerator (stateright, BFS then DFS) over the Observe reference model: its unique state
     count must equal the number of canonical states the real-code search visited. Mismatch = machinery failure."""
     r = subprocess.run(["cargo", "build", "-p", "xcheck", "--offline", "--profile", "oc"], cwd=MC, env=ENV,
@@ -438,10 +438,14 @@ def cross_engine_guard(families):
         r = subprocess.run([os.path.join(MC, "target/oc/xcheck"), m.group(1), mode],
                            stdout=subprocess.PIPE, stderr=subprocess.PIPE, text=True)
         j = json.loads(r.stdout.strip().splitlines()[-1])
+        # the model drops observer-less entries from its canonical state; the real-code search counts that
+        # projection separately (its own deduplication key keeps them)
+        projected = notes.get(f"oc:{f['name']}_projected_states")
         j["real_code_states"] = f["states"]
+        j["real_code_projected_states"] = projected
         j["family"] = f["name"]
         out.append(j)
-        if not (j["bfs_unique_states"] == j["dfs_unique_states"] == f["states"] and j["properties_hold"]):
+        if not (j["bfs_unique_states"] == j["dfs_unique_states"] == projected and j["properties_hold"]):
             log(f"MACHINERY: cross-engine state count mismatch for {f['name']}: {j}")
             sys.exit(2)
     return out
@@ -497,7 +501,7 @@ def check(pid, tier):
             signature_counts=rep["signature_counts"]))
     # ---- cross-engine guard (thorough, C14/C15): stateright enumerates the reference model; counts must agree
     if tier == "thorough" and pid in ("C14", "C15"):
-        xc = cross_engine_guard(families)
+        xc = cross_engine_guard(families, notes)
         notes["cross_engine_stateright"] = xc
     # for state-space checks the distinct non-trivial cases are the distinct canonical states (max over configs)
     max_states = max([pc.get("states", 0) for pc in per_config] + [0])
